@@ -968,3 +968,56 @@ def run(ctx):
     # position command starts empty (shared with C10.R2), otherwise hashes of the previous game are counted
     from . import c10
     c10.r2_history(ctx)
+
+
+def r6_table_cleared_per_go(ctx):
+    """depth-d values do not depend on what was searched before on the same engine instance"""
+    rid = "C08.R6"
+    ctx.rule(rid, "the transposition table is emptied at the start of every go, before its first search (a clear that dominates every search_negamax call of Search::best_move outside the iteration loop, or one in Search::go / reset_for_go that dominates the call of best_move): otherwise an entry of an earlier, deeper search answers a shallower one and the reported value is not the depth-d minimax value", floor=1)
+    prog = ctx.prog
+    bm = ctx.fn(rid, SEARCH + "best_move", positional=False)
+    bcfg = Cfg(bm)
+
+    def clears_in(f, cfg):
+        out = []
+        for b in sorted(cfg.reach):
+            t = f["blocks"][b]["term"]
+            if t["k"] == "call" and not f["blocks"][b]["cleanup"] and (t["callee"].get("key") or "").endswith("TranspositionTable>::clear"):
+                out.append(b)
+        return out
+    searches = [b for b in sorted(bcfg.reach) if bm["blocks"][b]["term"]["k"] == "call" and bm["blocks"][b]["term"]["callee"].get("key") == SEARCH + "search_negamax"]
+    if not searches:
+        ctx.lost(rid, "the search_negamax call of Search::best_move")
+        return
+    ok = all(any(bcfg.dominates(c, sb) and not bcfg.in_loop(c) for c in clears_in(bm, bcfg)) for sb in searches)
+    where = ctx.where(bm)
+    if not ok:
+        go = prog.fns.get(SEARCH + "go")
+        if go is not None:
+            gcfg = Cfg(go)
+            calls_bm = [b for b in sorted(gcfg.reach) if go["blocks"][b]["term"]["k"] == "call" and go["blocks"][b]["term"]["callee"].get("key") == SEARCH + "best_move"]
+            direct = clears_in(go, gcfg)
+            # or through a callee of go that clears on every path (reset_for_go)
+            via = []
+            for b in sorted(gcfg.reach):
+                t = go["blocks"][b]["term"]
+                if t["k"] == "call" and (t["callee"].get("key") or "").startswith(SEARCH):
+                    g = prog.fns.get(t["callee"]["key"])
+                    if g is not None:
+                        c2 = Cfg(g)
+                        cl = clears_in(g, c2)
+                        rets = [x for x in c2.reach if g["blocks"][x]["term"]["k"] == "return"]
+                        if cl and rets and all(any(c2.dominates(c, r) for c in cl) for r in rets):
+                            via.append(b)
+            ok = bool(calls_bm) and all(any(gcfg.dominates(c, cb) for c in direct + via) for cb in calls_bm)
+    ctx.ob(rid, "table-cleared-before-the-first-search-of-a-go", ok,
+           "" if ok else "no unconditional TranspositionTable::clear precedes the first search of a go (neither in Search::best_move before the iteration loop nor in Search::go / reset_for_go): entries of the previous go survive, the probe accepts any Exact entry of at least the remaining draft, and `go depth 2` after `go depth 4` reports the depth-4 value and line",
+           where)
+
+
+_run_before_r6_tt = run
+
+
+def run(ctx):
+    _run_before_r6_tt(ctx)
+    r6_table_cleared_per_go(ctx)
